@@ -15,7 +15,7 @@ func init() {
 			{Name: "H_C02_node", Tier: "quick", What: "5 kinds x {l2sq, cosine}: WithNode(id) == WithQuery(stored vector), unknown / removed id is an error; n=2, none|Remove|Remove+Flush", Covers: []string{"node-ok", "node-error"}},
 			{Name: "H_C02_multi", Tier: "quick", What: "5 kinds, l2sq: two queries or query+node id, sum/max/mean, k>=n: per-id score = rule over the raw per-query distances", Covers: []string{"multi"}},
 			{Name: "H_C02_multi_k", Tier: "quick", What: "flat / ivf / pq, l2sq, d=1, 3 live vectors, two symbolic queries, k=2 (per-query lists differ in membership: an id found by one query only contributes one score), sum/max/mean: per-id score = the rule over the lists that hold the id, ascending order, the k best aggregated scores kept; per-query distances assumed pairwise distinct", Covers: []string{"ran", "found-by-one-query-only"}},
-			{Name: "H_C02_filter_reuse", Tier: "quick", What: "5 kinds, 12 concrete vectors, 2 queries, k any int: a search restricted to 10..13 ids (two unknown), then one restricted to 1..3 ids, then a large restriction or none — each answer exact for its own restriction (sound for hnsw); the pooled restriction object is reused between them", Covers: []string{"ran"}},
+			{Name: "H_C02_filter_reuse", Tier: "quick", What: "5 kinds, 14 concrete vectors, 2 queries, k any int: a search restricted to 10..13 ids (two unknown), then one restricted to 1..7 ids (incl. ascending lists that repeat an id and straddle live ids that are not listed), then a large restriction or none — each answer exact for its own restriction (sound for hnsw); the pooled restriction object is reused between them", Covers: []string{"ran"}},
 			{Name: "H_C02_builder_reuse", Tier: "quick", What: "5 kinds, concrete stored vectors, symbolic query coordinate, k in {2,3}: ONE search object executed with 1 vector resident (fewer than k), again after 3 more Adds, after a Remove, after a Flush — every answer exact for the index as it is then (sound + non-empty for hnsw); a two-query batch with a threshold whose first query has no candidate: nothing (clamped k, ranked clusters, tables) is carried from one call or query into the next", Covers: []string{"ran"}},
 			{Name: "H_C02_flush", Tier: "quick", What: "flat/ivf/pq/ivfpq (full probe), 3 metrics, n<=3, 1..2 removals: result list before Flush == after Flush element by element", Covers: []string{"flush"}},
 			{Name: "H_C02_sound_t", Tier: "thorough", What: "all kinds, n=3", Covers: []string{"nonempty-result"}},
